@@ -257,6 +257,7 @@ type Val struct {
 }
 
 type LPath struct {
+	LibErr bool // global error value of another package (io.EOF, ...): never nil
 	Kind   string // "field","cell","index","sub","global","opaque","local"
 	Base   *LPath
 	Ref    string
